@@ -11,11 +11,32 @@ except Exception:
     pass
 
 MC = "model_checking"
+TECH = "explicit TLA+ specification model-checked with TLC; transition-cover replay of TLC behaviours on the real code; trace / row validation of recorded events against the specification"
 CHECKS = {
+ "C02": dict(level=MC, design="5/C02",
+   text="FrameCompressor.tla (frame loop, block decision, literals decision composed with a shadow decoder) is explored exhaustively with invariants SyncNow / BeliefSound / OneLast / Structure / FreshFrame; every transition of its graph becomes an input program (content class per block, level, read fragmentation, up to 2 frames on one reused compressor) run on the real compressor; every emitted frame is decoded by ruzstd and libzstd and compared with the input; the recorded block decisions are validated against Trace_FrameCompressor. Seeded random programs over boundary lengths extend this. Exhaustive over the abstract decision graph, sampled over byte contents.",
+   note="libzstd 1.5.7 is the reference decoder; inputs sampled per content class; bounds MaxFrames=2, MaxBlocks=2/3", technique=TECH),
  "C04": dict(level=MC, design="5/C04",
-   text="TLC explores the cell-level ring buffer model exhaustively (every reachable (cap, head, tail, written-set) x every operation x operand menu, chunked over-copy K=16, invariants Safe/TypeOK/Accounting/WrittenPrefix); every transition of that graph is replayed on the real RingBuffer (indices, len, free, contents against a byte queue); seeded random RingBuffer and DecodeBuffer operation sequences are recorded through hooks (operations and the extents the raw copies actually touched) and validated against the trace specification, so over-reads that never change contents are detected. Exhaustive within the bounds, sampled beyond them.",
-   note="compiler and allocator trusted; bounds cap<=33 (quick) / <=65 (thorough), larger capacities only through random traces (cap<=129); K=8 path on the specification only",
-   technique="TLA+ model checking (TLC) + transition-cover replay + trace validation of hook events"),
+   text="TLC explores the cell-level ring buffer model exhaustively (every reachable (cap, head, tail, written-set) x every operation x operand menu, chunked over-copy K=16, invariants Safe/TypeOK/Accounting/WrittenPrefix); every transition of that graph is replayed on the real RingBuffer (contents against a byte queue, len, free, position invariants); seeded random RingBuffer and DecodeBuffer operation sequences are recorded through hooks (operations and the extents the raw copies actually touched) and validated against the trace specification, so over-reads that never change contents are detected. Exhaustive within the bounds, sampled beyond them.",
+   note="compiler and allocator trusted; bounds cap<=33 (quick) / <=65 (thorough), larger capacities only through random traces (cap<=129); K=8 path on the specification only", technique=TECH),
+ "C05": dict(level=MC, design="5/C05",
+   text="FrameDecoder.tla has no successful transition for a block regenerating more than 128 KiB (invariant Bounded05); explored over hostile frames (blocks at exactly 128 KiB and one byte more by sequences and by RLE literals, 1000 / 32800 maximum-length matches, a window-sized block after the window was filled) x all strategies, every transition replayed on the real decoder; every frame x strategy x front end additionally runs in a child process under a counting allocator with heap cap and deadline: bytes held beyond the window and heap peak must stay within window + requested + 128 KiB.",
+   note="heap bound 2*(window+requested+128 KiB) + slack; bombs via sequences and RLE literals", technique=TECH),
+ "C06": dict(level=MC, design="5/C06",
+   text="FrameDecoder.tla (decode_blocks with all strategies, collect, read, collect_to_writer over scripted sinks and the physical two-segment ring arithmetic, decode_from_to, StreamingDecoder read) is explored exhaustively up to a call bound per frame over materialised frames; every transition is replayed on the real FrameDecoder/StreamingDecoder with slice and fragmenting sources; delivered bytes, errors, final checksums, consumed counts and the decode_from_to contract are the violation criteria, exact intermediate values are conformance (drift) only; random legal schedules over decodecorpus / libzstd / ruzstd frames add real sizes.",
+   note="schedule space exhaustive up to MaxSteps calls per frame over the listed menus; frame contents sampled; serializer cross-checked by libzstd", technique=TECH),
+ "C07": dict(level=MC, design="5/C07",
+   text="In FrameDecoder.tla Reset re-initialises every per-frame variable; TLC explores all histories (frame, progress, ending: completed / abandoned / failed at header, block header, body, checksum, missing dictionary, invalid block) with Reset enabled in every state over plain, dictionary, probe and dirty frames; every transition is replayed on one real decoder, whose behaviour after Reset must be that of a fresh decoder; probe frames (treeless / repeat-mode without previous table, match before frame start, repeat offsets at frame start) make leaked internal state observable.",
+   note="leaks are detected when they change an observable of a frame in the set; two synthetic dictionaries cross-checked with libzstd", technique=TECH),
+ "C08": dict(level=MC, design="5/C08",
+   text="Decoder side: the FrameDecoder model drives all five drain paths in wrapped and unwrapped ring states over checksummed frames; after every program the calculated and stored checksums are compared with an independent XXH64 of exactly the bytes handed out. Encoder side: every frame produced by the FrameCompressor model programs and random programs (1-3 frames on a reused compressor, both levels, empty input) must end with the low 32 bits of XXH64(input).",
+   note="independent XXH64 implementation in the harness", technique=TECH),
+ "C10": dict(level=MC, design="5/C10",
+   text="FrameDecoder.tla with a truncated source: every cut point at and around every structural boundary x decode/drain/streaming/slice calls, invariants NoFinishOnPrefix and ConsumedOK, every transition replayed; an exhaustive sweep of every source length of every model frame through four entry points is judged row by row by TLC with the specification's operators (TruncPropOk); MultiFrame.tla enumerates all item sequences (frames, skippable frames, truncated/garbage/invalid items) up to 2/3 items x boundary target capacities and the real decode_all / decode_all_to_vec are run on every case; every strict prefix of small real frames at property level.",
+   note="13 item kinds; truncated items only at the end of the input; regenerated sizes of compressed blocks of real frames not modelled", technique=TECH),
+ "C15": dict(level=MC, design="5/C02",
+   text="Same pipeline as C02: every emitted frame is walked by an independent block-level walker (magic, header fields, block types and sizes, exactly one last block at the end, nothing after it but the checksum, block count for the input length), regenerated block sizes and every match offset (<= window and <= data produced so far) are read from the decoder's block/sequence events, and the frame size is compared with input + framing overhead; invariants OneLast / Structure of FrameCompressor.tla on every validated trace.",
+   note="offsets and regenerated sizes come from decoder events (hook H3), the decode result is independently confirmed by libzstd", technique=TECH),
 }
 NOT_YET = {}
 
